@@ -54,42 +54,133 @@ def load_sidecars(prop):
     return api.REG
 
 
+def _task_list(reg, only):
+    tasks = []
+    if reg.lemmas:
+        tasks.append(("lemmas", None))
+    for key, c in reg.contracts.items():
+        if not c.verify or (only and only not in c.func):
+            continue
+        tasks.append(("contract", key))
+    if reg.flow_contracts:
+        tasks.append(("flows", None))
+    return tasks
+
+
+def _run_task(reg, prop, task, only, verbose, z3_ms, cvc5_ms, workers, parent):
+    """generate and discharge the obligations of one unit (all lemmas / one contract / all flow contracts); plain data out"""
+    kind, key = task
+    eng = Verifier(reg, prop)
+    eng.specs, eng.axioms = parent.specs, list(parent.axioms)      # spec functions are declared once (z3 RecFunction definitions are global)
+    errors = []
+    t0 = time.time()
+    try:
+        if kind == "lemmas":
+            eng.verify_lemmas()
+        elif kind == "contract":
+            eng.verify_function(reg.contracts[key])
+        else:
+            from coverif import v1 as cov1
+            for fkey, fc in reg.flow_contracts.items():
+                if only and only not in fc.flow:
+                    continue
+                if fc.opts.get("assumed"):
+                    eng.assumptions.add("assumed flow contract: %s (%s)" % (fc.flow, fc.opts["assumed"]))
+                    continue
+                try:
+                    cov1.verify_flow(eng, fc, getattr(reg, "parsed_flows", {}))
+                except (OutOfSubset, CheckerError) as ex:
+                    errors.append((fc.flow, type(ex).__name__, str(ex)))
+    except (OutOfSubset, CheckerError) as ex:
+        errors.append(("lemmas" if kind == "lemmas" else reg.contracts[key].func if kind == "contract" else "flows", type(ex).__name__, str(ex)))
+        if verbose:
+            traceback.print_exc()
+    tgen = time.time() - t0
+    solve.discharge(eng.obls, eng.base_axioms(), z3_ms=z3_ms, cvc5_ms=cvc5_ms, workers=workers)
+    obls = []
+    for o in eng.obls:
+        fx = getattr(o, "fx", None)
+        fs = getattr(fx, "fsrc", None)
+        obls.append(dict(name=o.name, kind=o.kind, line=o.line, note=o.note, verdict=o.verdict, backend=o.backend or "", time=o.time,
+                         witness=o.witness, label=getattr(fx, "label", ""), qualname=fs.qualname if fs else None,
+                         relpath=fs.relpath if fs else None, sha256=fs.sha256 if fs else None,
+                         known_finding=getattr(o, "known_finding", None)))
+    return dict(obls=obls, errors=errors, functions=eng.functions, assumptions=sorted(eng.assumptions), stats=eng.stats, gen_s=tgen)
+
+
+class _Ns:
+    def __init__(self, **kw):
+        self.__dict__.update(kw)
+
+
 def run(prop, tier="quick", only=None, verbose=False, workers=12):
+    """every unit (lemmas, each contract, flow contracts) is generated AND discharged in a forked child of its own, several at a
+    time: generation (symbolic execution with its feasibility queries) is the serial part of a run"""
+    import pickle
+    import select
     t0 = time.time()
     reg = load_sidecars(prop)
     eng = Verifier(reg, prop)
     eng.declare_specs()
-    errors = []
-    try:
-        eng.verify_lemmas()
-    except (OutOfSubset, CheckerError) as ex:
-        errors.append(("lemmas", type(ex).__name__, str(ex)))
-    for key, c in reg.contracts.items():
-        if not c.verify or (only and only not in c.func):
-            continue
-        try:
-            rec = eng.verify_function(c)
-        except (OutOfSubset, CheckerError) as ex:
-            errors.append((c.func, type(ex).__name__, str(ex)))
-            if verbose:
-                traceback.print_exc()
-    if reg.flow_contracts:
-        from coverif import v1 as cov1
-        for key, fc in reg.flow_contracts.items():
-            if only and only not in fc.flow:
-                continue
-            if fc.opts.get("assumed"):
-                eng.assumptions.add("assumed flow contract: %s (%s)" % (fc.flow, fc.opts["assumed"]))
-                continue
-            try:
-                cov1.verify_flow(eng, fc, getattr(reg, "parsed_flows", {}))
-            except (OutOfSubset, CheckerError) as ex:
-                errors.append((fc.flow, type(ex).__name__, str(ex)))
-                if verbose:
-                    traceback.print_exc()
-    tgen = time.time() - t0
     z3_ms, cvc5_ms = (10000, 20000) if tier == "quick" else (120000, 120000)
-    solve.discharge(eng.obls, eng.base_axioms(), z3_ms=z3_ms, cvc5_ms=cvc5_ms, workers=workers)
+    tasks = _task_list(reg, only)
+    par = max(1, min(len(tasks), int(os.environ.get("PYVC_PAR", "5"))))
+    w_each = max(3, workers // par)
+    results = {}
+    running = {}
+    pending = list(enumerate(tasks))
+    while pending or running:
+        while pending and len(running) < par:
+            i, task = pending.pop(0)
+            rfd, wfd = os.pipe()
+            pid = os.fork()
+            if pid == 0:
+                try:
+                    os.close(rfd)
+                    out = _run_task(reg, prop, task, only, verbose, z3_ms, cvc5_ms, w_each, eng)
+                    data = pickle.dumps(out)
+                except BaseException as ex:
+                    data = pickle.dumps(dict(obls=[], errors=[(str(task[1] or task[0]), type(ex).__name__, str(ex)[:300])], functions=[],
+                                             assumptions=[], stats={}, gen_s=0.0))
+                    if verbose:
+                        traceback.print_exc()
+                try:
+                    with os.fdopen(wfd, "wb") as f:
+                        f.write(data)
+                finally:
+                    os._exit(0)
+            os.close(wfd)
+            running[rfd] = [pid, i, b""]
+        ready, _, _ = select.select(list(running), [], [], 1.0)
+        for fd in ready:
+            chunk = os.read(fd, 1 << 20)
+            if chunk:
+                running[fd][2] += chunk
+                continue
+            pid, i, buf = running.pop(fd)
+            os.close(fd)
+            os.waitpid(pid, 0)
+            try:
+                results[i] = pickle.loads(buf)
+            except Exception as ex:
+                results[i] = dict(obls=[], errors=[(str(tasks[i][1] or tasks[i][0]), "ProverChildDied", str(ex)[:200])], functions=[],
+                                  assumptions=[], stats={}, gen_s=0.0)
+    errors = []
+    tgen = 0.0
+    for i in sorted(results):
+        r = results[i]
+        errors += [tuple(e) for e in r["errors"]]
+        eng.functions += r["functions"]
+        eng.assumptions |= set(r["assumptions"])
+        tgen += r["gen_s"]
+        for k, v in r["stats"].items():
+            if isinstance(v, (int, float)):
+                eng.stats[k] = max(eng.stats.get(k, 0), v) if k.endswith("_max") else eng.stats.get(k, 0) + v
+        for d in r["obls"]:
+            fs = _Ns(qualname=d["qualname"], relpath=d["relpath"], sha256=d["sha256"]) if d["qualname"] else None
+            o = _Ns(name=d["name"], kind=d["kind"], line=d["line"], note=d["note"], verdict=d["verdict"], backend=d["backend"], time=d["time"],
+                    witness=d["witness"], fx=_Ns(fsrc=fs, label=d["label"]), known_finding=d["known_finding"])
+            eng.obls.append(o)
     return eng, errors, tgen, time.time() - t0
 
 
